@@ -28,6 +28,8 @@ type vChanConn struct {
 	closed int
 	rd     time.Time
 	eof    bool
+	// autoPong: the gateway answers every PINGREQ at once
+	autoPong bool
 }
 
 func vNewChanConn() *vChanConn { return &vChanConn{in: make(chan []byte, 16)} }
@@ -58,6 +60,9 @@ func (c *vChanConn) Write(p []byte) (int, error) {
 	copy(b, p)
 	c.out = append(c.out, b)
 	c.outAt = append(c.outAt, vNow())
+	if c.autoPong && len(p) >= 2 && p[1] == vtPINGREQ && len(c.in) < cap(c.in) {
+		c.in <- []byte{2, vtPINGRESP}
+	}
 	return len(p), nil
 }
 func (c *vChanConn) Close() error                       { c.closed++; return nil }
